@@ -76,8 +76,8 @@ def configs(ctx):
     mm = dict(KindsMid={"vec"}, AllowT=True, AllowMM=True, AllowOver=True)
     if ctx.quick:
         return [
-            _cfg("single", R("SingleScenarios(3)"), 2, AllowT=True),
-            _cfg("pending", _scen(SCENARIOS[:2]), 2, ScalarOps=ALLSCALAR, SparseOps=ALLSPARSE,
+            _cfg("single", R("SingleScenarios(3)"), 2, AllowT=True, KindsFinal={"vec", "sp", "ad", "sc"}),
+            _cfg("pending", _scen(SCENARIOS[:1]), 2, ScalarOps=ALLSCALAR, SparseOps=ALLSPARSE,
                  ScalarFmts={"int", "float", "np"}, SparseFmts={"csc"}),
             _cfg("multi", _scen(SCENARIOS[:1]), 3, ScalarOps={"*"}, SparseOps=R('{<<"@", "csr">>}'), KindsFinal={"vec", "ad"}, **mm),
         ]
@@ -89,7 +89,7 @@ def configs(ctx):
              SparseFmts={"csr", "csc", "coo"}),
         _cfg("multi", _scen(SCENARIOS), 3, ScalarOps={"*", "-"}, SparseOps=R('{<<"@", "csr">>}'),
              KindsFinal={"vec", "sp", "ad"}, **mm),
-        _cfg("deep", _scen(SCENARIOS[:1]), 4, ScalarOps={"*"}, SparseOps=R('{<<"@", "csr">>}'), KindsFinal={"vec"},
+        _cfg("deep", _scen(SCENARIOS[:1]), 4, SparseOps=R('{<<"@", "csr">>}'), KindsFinal={"vec"},
              AllowMM=True, AllowOver=True),
     ]
 
@@ -311,9 +311,11 @@ def judge(ctx, cases, prefix=""):
         bad = [v for v in ctx.judge("J_Slicer", slim, ["Verdict"], workers=8, tag=f"j{len(ctx.tlc_runs)}") if "clause" in v]
         viol = [v for v in bad if v["clause"] in CLAUSES]
         expected = {}
-        if viol and not told:
+        # expected values are only fetched for the report text of violations that are not known findings
+        fresh = [v for v in viol if not any(fn(dict(chunk[v["case"] - 1], clause=v["clause"])) for fn in MATCHERS.values())]
+        if fresh and not told:
             told = True
-            idx = sorted({v["case"] for v in viol})[:60]
+            idx = sorted({v["case"] for v in fresh})[:60]
             tell = ctx.judge("J_Slicer", [slim[i - 1] for i in idx], ["TellRef"], workers=2, tag=f"t{len(ctx.tlc_runs)}")
             expected = {idx[t["case"] - 1]: t["val"] for t in tell if t.get("tag") == "ref"}
         for v in bad:
@@ -388,7 +390,7 @@ def run(ctx):
         per[tag] = per.get(tag, 0) + 1
         for k, o in enumerate(execute(p), 1):
             cases.append(dict(prog=p, k=k, out=o, binding="slicer"))
-        if tag != "single" and ad_expressible(p) and n % (3 if ctx.quick else 2) == 0:
+        if tag != "single" and ad_expressible(p) and n % 3 == 0:
             for k, o in enumerate(execute_ad(p), 1):
                 cases.append(dict(prog=p, k=k, out=o, binding="ad"))
     ctx.programs = len(res.records)
